@@ -283,6 +283,8 @@ def run(rep):
     # of the very ValidationOptions found in options.validate - a weaker validator accepts modules the documented one rejects
     n_cfg = 0
     for n2, b2 in sorted(mir.bodies.items()):
+        if n2 in helpers:
+            continue        # inlined into the generating function: judged there, where its parameters are the caller's values
         for bb2, t2 in b2.calls():
             if not cname(t2).endswith('valid::Validator::new') or len(t2['args']) < 2:
                 continue
@@ -302,7 +304,21 @@ def run(rep):
                 reads_caps = any(place_reads_field(p_, 'ValidationOptions', 'capabilities') for p_ in places)
                 from_validate = any(place_reads_field(p_, 'WriteOptions', 'validate') for p_ in places) or \
                     any(local_from_field(mir, b2, p_['l'], 'WriteOptions', 'validate') for p_ in places if place_reads_field(p_, 'ValidationOptions', 'capabilities'))
-                plumbing_only = all(method(c) in ('as_ref', 'copied', 'cloned', 'clone', 'unwrap', 'as_deref', 'branch', 'deref') or c.startswith(PLUMBING) for c in ccalls)
+                OPT = ('as_ref', 'copied', 'cloned', 'clone', 'unwrap', 'as_deref', 'branch', 'deref', 'map', 'and_then')
+                # an accessor helper of the crate that returns `options.validate.map(|v| v.capabilities)`: reads exactly those two fields, only Option plumbing
+                for c in list(ccalls):
+                    hb = mir.bodies.get(c)
+                    if hb is None or hb.kind == 'Closure':
+                        continue
+                    fam = [hb] + [b_ for n_, b_ in mir.bodies.items() if b_.kind == 'Closure' and b_.parent == c]
+                    h_places = [p_ for b_ in fam for blk_ in b_.blocks for s_ in blk_['stmts'] for p_ in b_.rvalue_places(s_['rv'])] + \
+                        [op_place(a_) for b_ in fam for _, t_ in b_.calls() for a_ in t_['args'] if op_place(a_)]
+                    h_calls = [cname(t_) for b_ in fam for _, t_ in b_.calls()]
+                    if any(place_reads_field(p_, 'WriteOptions', 'validate') for p_ in h_places) and any(place_reads_field(p_, 'ValidationOptions', 'capabilities') for p_ in h_places) and \
+                            all(method(x) in OPT or x.startswith(PLUMBING) or x in [n_ for n_, b_ in mir.bodies.items() if b_.kind == 'Closure' and b_.parent == c] for x in h_calls):
+                        reads_caps = from_validate = True
+                        ccalls.remove(c)
+                plumbing_only = all(method(c) in OPT or c.startswith(PLUMBING) for c in ccalls)
                 ok_caps = reads_caps and from_validate and plumbing_only
             rep.check(ok_caps, 'C17.3.validator-config', f'validation-capabilities:{n2}', b2.where(bb2),
                       f'the validator\'s capability set is not the `capabilities` of the caller\'s options.validate (computed through {ccalls}): modules that need a capability the caller '
